@@ -225,6 +225,7 @@ func runC18(k *kernel.K) {
 	}
 	var carry *carried
 	var staleNew *tsConfig // when set, the exchange runs on a connection older than this accepted configuration
+	midConfigured := false // the current connection saw a configuration accepted in the middle of a response
 	runExchange := func(cl *Client, connModel *tsConfig, connLatency time.Duration, first bool, stamps *[]writeStamp, j int) {
 		e := &tsEx{id: nextID}
 		nextID++
@@ -241,11 +242,23 @@ func runC18(k *kernel.K) {
 			e.body = full
 			e.resp = &RespSpec{Status: 200, Framing: "cl", Body: e.body}
 		}
+		if w.Chance(1, 6) {
+			// a response head larger than the proxy's 4 KiB write buffer reaches the shaped
+			// connection in more than one Write
+			e.resp.Header = append(e.resp.Header, wire.HF{Name: "X-Large", Value: strings.Repeat("h", 4500+w.Draw(3000))})
+			k.Probe("response_head_spans_writes")
+		}
 		exs[e.id] = e
 		cl.Add(e.spec)
 		before := len(*stamps)
 		t0 := k.Now()
 		advances := 0
+		// Sometimes a new configuration is accepted while this response is in flight: from then on
+		// the connection is one that was accepted before the configuration in force.
+		midAt := -1
+		if staleNew == nil && connModel != nil && w.Chance(1, 6) {
+			midAt = 1 + w.Draw(40)
+		}
 		for guard := 0; guard < 4000; guard++ {
 			k.Settle()
 			if cl.Done() {
@@ -253,6 +266,19 @@ func runC18(k *kernel.K) {
 			}
 			if k.Step() {
 				continue
+			}
+			if advances == midAt {
+				nc := genTSConfig(k, 7)
+				if st := configure(nc); st == 200 {
+					shapeBuckets += len(nc.Shapes)
+					active = nc.clone()
+					staleNew = active
+					midConfigured = true
+					k.Probe("config_accepted_mid_response")
+					k.Note("mid-response config -> %d: %s", st, clipStr(nc.JSON(), 600))
+				} else {
+					k.Fail("C18.reject_unchanged", map[string]string{"kind": "valid_rejected"}, "valid shaping configuration (posted while a response was in flight) was answered with status %d: %s", st, clipStr(nc.JSON(), 300))
+				}
 			}
 			step := time.Millisecond
 			switch {
@@ -341,13 +367,18 @@ func runC18(k *kernel.K) {
 			}
 			connModel := active // the shape set this connection was accepted under
 			nreq := w.Range(1, 3)
+			midConfigured = false
 			for j := 0; j < nreq && k.Inconclusive == "" && cl.Alive(); j++ {
 				runExchange(cl, connModel, connLatency, j == 0, stamps, j)
 				if cl.SawEOF || cl.SawRST {
 					break
 				}
 			}
-			if conn == nc-1 && cl.Alive() && ci < nconf-1 {
+			wasMid := midConfigured
+			if midConfigured {
+				staleNew, midConfigured = nil, false
+			}
+			if conn == nc-1 && cl.Alive() && ci < nconf-1 && !wasMid {
 				// keep the last connection of this round open across the next configuration
 				carry = &carried{cl, connModel, connLatency, stamps}
 				continue
